@@ -32,7 +32,8 @@ from props import base
 PROP = "C14"
 PROPS_V = "theories/Props/C14.v"
 THEOREMS = ["C14_show_eq_query_reach", "C14_mark_dominates_every_row", "C14_any_arrival_order",
-            "C14_former_MarkOfLastFrame_witness_exact", "C14_stored_below_mark", "C14_monotone_clock_suffices",
+            "C14_former_MarkOfLastFrame_witness_exact", "C14_frame_property", "C14_frame_property_history",
+            "C14_view_independent", "C14_several_views_example", "C14_stored_below_mark", "C14_monotone_clock_suffices",
             "C14_show_idempotent", "C14_failed_show_then_show_exact", "C14_failed_show_state", "C14_refuted_InterruptedRefresh",
             "C14_failed_show_example", "C14_remember_dup_rejected", "C14_remember_fresh_accepted", "C14_show_eq_query_refuted",
             "C14_refuted_PayloadTimeField_dup", "C14_refuted_PayloadTimeField_lost", "C14_refuted_PayloadTimeField_hidden",
@@ -40,7 +41,7 @@ THEOREMS = ["C14_show_eq_query_reach", "C14_mark_dominates_every_row", "C14_any_
             "C14_refuted_RawStreamDuplicates", "C14_refuted_SegmentOlderThanEvent", "C14_show_eq_query_outside_known",
             "C14_no_class_is_good", "C14_outside_known_example"]
 RULE = ("engine histories over 1..3 shards (STORE with pinned second / scripted millisecond clock, FLUSH, compaction round, "
-        "restart, REMEMBER, SHOW followed by QUERY, SHOW whose response writer fails after n bytes) for queries with FOR / WHERE / SINCE / USING / RETURN / LIMIT, plus "
+        "restart, REMEMBER, SHOW followed by QUERY, SHOW whose response writer fails after n bytes; up to four views side by side under names differing in case / prefix / separator / length, over two event types) for queries with FOR / WHERE / SINCE / USING / RETURN / LIMIT, plus "
         "function-level append sequences of MaterializedSink and HighWaterMark op sequences; a history is non-trivial when "
         "a SHOW of an existing materialisation returned at least one row; distinct by (configuration, op sequence)")
 ASSUMPTIONS = [
@@ -59,7 +60,7 @@ TRUSTED = [
 ]
 CLAIMED = True
 MANIFEST = {
- "level_text": "Theorems over Model/Materialize.v (all layouts: any shards/segments/zones/file times; all histories of new quiescent layouts, REMEMBERs and SHOWs; all arrival orders of the batches; queries with FOR/WHERE/SINCE on the core timestamp): inductive invariant 'stored frames = matching events at or below the mark'; every SHOW returns exactly the live selection, each event once; SHOW is idempotent without new data; REMEMBER under an existing name is rejected. The full property is refuted with machine-checked witnesses, each replayed on the real engine, and proved outside six decidable classes (a seventh, MarkOfLastFrame, was repaired by c71d768: the mark is now the maximum over the frames, proved to dominate every stored row for every arrival order of the batches, so REMEMBER and SHOW are exact whatever the fan-in order); a payload time field (USING f) is compared against a mark taken from the core timestamp (PayloadTimeField); an event that is not above the mark when it arrives is never shown (EventNotAboveMark: frozen/backward clock, same millisecond on a lower shard); LIMIT is cut at REMEMBER and never re-applied by SHOW (LimitNotReapplied); REMEMBER inside a flush window stores the raw stream twice (RawStreamDuplicates); a segment file older than mark-1 s is skipped whole (SegmentOlderThanEvent). SHOW's two-step persistence is modelled (frames appended while streaming, catalog entry rewritten after the response): a SHOW whose delivery failed, followed by any good operations and a healthy SHOW, is proved exact, except when the aborted refresh kept the newer delta batch only (InterruptedRefresh, reproduced with a response above the writer's 64 KiB buffer). The round-0 hypothesis about created_at pruning after an empty REMEMBER is refuted (dead code). The model is replayed against the engine on generated histories with observed layouts/frames; the oracle compares SHOW with QUERY issued back to back.",
+ "level_text": "Theorems over Model/Materialize.v (all layouts: any shards/segments/zones/file times; all histories of new quiescent layouts, REMEMBERs and SHOWs; all arrival orders of the batches; queries with FOR/WHERE/SINCE on the core timestamp): inductive invariant 'stored frames = matching events at or below the mark'; every SHOW returns exactly the live selection, each event once; SHOW is idempotent without new data; REMEMBER under an existing name is rejected. The full property is refuted with machine-checked witnesses, each replayed on the real engine, and proved outside six decidable classes (a seventh, MarkOfLastFrame, was repaired by c71d768: the mark is now the maximum over the frames, proved to dominate every stored row for every arrival order of the batches, so REMEMBER and SHOW are exact whatever the fan-in order); a payload time field (USING f) is compared against a mark taken from the core timestamp (PayloadTimeField); an event that is not above the mark when it arrives is never shown (EventNotAboveMark: frozen/backward clock, same millisecond on a lower shard); LIMIT is cut at REMEMBER and never re-applied by SHOW (LimitNotReapplied); REMEMBER inside a flush window stores the raw stream twice (RawStreamDuplicates); a segment file older than mark-1 s is skipped whole (SegmentOlderThanEvent). SHOW's two-step persistence is modelled (frames appended while streaming, catalog entry rewritten after the response): a SHOW whose delivery failed, followed by any good operations and a healthy SHOW, is proved exact, except when the aborted refresh kept the newer delta batch only (InterruptedRefresh, reproduced with a response above the writer's 64 KiB buffer). Several views side by side: an operation on one view leaves the entry (query, store, marks) of every other view unchanged, for all histories, and its own answer depends on its own entry and the layout only (frame property; the run uses view names that differ only in letter case, prefixes of each other, both separators, 200-character names, different WHERE constants over one type and queries over a second type, and checks on the engine that no operation on one view changes the store or catalog entry of another). The round-0 hypothesis about created_at pruning after an empty REMEMBER is refuted (dead code). The model is replayed against the engine on generated histories with observed layouts/frames; the oracle compares SHOW with QUERY issued back to back.",
  "design_ref": "DESIGN.md §6 C14",
  "level_note": "Trusted: Coq kernel; ExtrOcamlBasic extraction + ocaml/p_mat.ml; the engine harness, tools/engine.py, harness/src/probes/mat.rs (layout and frames are read with the engine's own readers); clock hooks under cfg(sneldb_verif). Arrival order of batches and (for LIMIT) the delivered rows are inputs taken from the observation. Not modelled: ORDER BY/OFFSET/aggregates in remembered queries, retention, batches > 32768 rows."
 }
@@ -72,8 +73,11 @@ def corpus():
 
 
 # ------------------------------------------------------------------------------------------------ queries
+TYPES = ["ev", "ev2"]      # event types with the same field layout
+
+
 def q_text(q, base_s, with_limit=True):
-    t = "QUERY ev"
+    t = "QUERY " + TYPES[q.get("type", 0)]
     if q.get("ctx") is not None:
         t += f" FOR c{q['ctx']:02d}"
     if q.get("since") is not None:
@@ -101,7 +105,8 @@ def q_token(q, base_s):
         "-" if q.get("ctx") is None else str(q["ctx"]), w,
         "-" if q.get("since") is None else str(base_s + q["since"]),
         "P" if q.get("tf") == "P" else "C", ret,
-        "-" if q.get("limit") is None else str(q["limit"])])
+        "-" if q.get("limit") is None else str(q["limit"]),
+        str(q.get("type", 0))])
 
 
 def show_q(q):
@@ -112,20 +117,30 @@ def show_q(q):
     if q.get("where"): s.append(f"WHERE v {q['where'][0]} {q['where'][1]}")
     if q.get("ret"): s.append("RETURN [" + ",".join(q["ret"]) + "]")
     if q.get("limit") is not None: s.append(f"LIMIT {q['limit']}")
-    return "QUERY ev " + " ".join(s)
+    return "QUERY " + TYPES[q.get("type", 0)] + " " + " ".join(s)
 
 
-def show_ops(ops):
+def alias_of(aliases, name):
+    a = (aliases or {}).get(str(name))
+    if a is None:
+        return f"m{name}"
+    return a if len(a) <= 24 else f"{a[:10]}..({len(a)} chars)"
+
+
+def show_ops(ops, aliases=None):
     out = []
     for o in ops:
-        if o[0] == "S": out.append(f"S(c{o[1]:02d},v{o[2]},pt{o[3]:+d})")
+        if o[0] in ("R", "W", "H", "HF", "HA"):
+            o = list(o)
+            o[1] = alias_of(aliases, o[1])
+        if o[0] == "S": out.append(f"S(c{o[1]:02d},v{o[2]},pt{o[3]:+d}" + (f",{TYPES[o[4]]}" if len(o) > 4 and o[4] else "") + ")")
         elif o[0] == "N": out.append(f"now{o[1]:+d}")
         elif o[0] == "K": out.append("clock(" + ("adv," if o[1] else "") + ",".join(str(x) for x in o[2:]) + ")")
-        elif o[0] == "R": out.append(f"REMEMBER[{show_q(o[2])}] AS m{o[1]}")
-        elif o[0] == "W": out.append(f"park(fw_published);S x{o[3]};REMEMBER[{show_q(o[2])}] AS m{o[1]};release")
-        elif o[0] == "H": out.append(f"SHOW m{o[1]}")
-        elif o[0] == "HF": out.append(f"failwrite({o[2]});SHOW m{o[1]}")
-        elif o[0] == "HA": out.append(f"F;abort@{o[2]}#{o[3]};SHOW m{o[1]};restart")
+        elif o[0] == "R": out.append(f"REMEMBER[{show_q(o[2])}] AS {o[1]}")
+        elif o[0] == "W": out.append(f"park(fw_published);S x{o[3]};REMEMBER[{show_q(o[2])}] AS {o[1]};release")
+        elif o[0] == "H": out.append(f"SHOW {o[1]}")
+        elif o[0] == "HF": out.append(f"failwrite({o[2]});SHOW {o[1]}")
+        elif o[0] == "HA": out.append(f"F;abort@{o[2]}#{o[3]};SHOW {o[1]};restart")
         elif o[0] == "B": out.append(f"S x{o[1]}")
         else: out.append(o[0])
     return " ".join(out)
@@ -149,6 +164,9 @@ class Hist:
         self.case = case
         self.cfg = dict(case["cfg"])
         self.future = bool(case.get("future"))
+        self.aliases = case.get("aliases") or {}     # view number -> spelling of its name (default m<number>)
+        self.ntypes = int(case.get("types", 1))
+        self.frame_check = bool(case.get("frame_check"))
         self.notes = []
         self.tokens = []
         self.obs = []
@@ -162,6 +180,7 @@ class Hist:
         self.last_layout = None
         self.faulted = {}      # name -> a SHOW failed since the last healthy one
         self.sink_mark = {}    # name -> store mark at the last frames() reading
+        self.store_paths = {}
         self.pending_fail = {}
         self.notes_info = []
 
@@ -182,8 +201,24 @@ class Hist:
         self.now = self.base
         self.ms = self.base * 1000
         self.pin()
-        r = self.eng.cmd('DEFINE ev FIELDS { k: "int", v: "int", pt: "datetime" }')
-        self.uid = self.eng.cmd("!uid ev").get("uid")
+        self.uids = []
+        for t in TYPES[:self.ntypes]:
+            self.eng.cmd('DEFINE %s FIELDS { k: "int", v: "int", pt: "datetime" }' % t)
+            self.uids.append(self.eng.cmd("!uid " + t).get("uid"))
+
+    def alias(self, name):
+        return self.aliases.get(str(name), f"m{name}")
+
+    def store_dir(self, name):
+        """the directory the ENGINE keeps this view's store in (catalog entry's storage_path); before the entry exists:
+        where catalog/entry.rs will put it"""
+        if name not in self.store_paths:
+            out = fn_probe(f"mat_catalog {hx(os.path.join(self.eng.root, 'cols'))} {self.alias(name)}")
+            m = re.search(r"path=([0-9a-f]+)", out)
+            if not m:
+                return os.path.join(self.eng.root, "cols", "materializations", self.alias(name))
+            self.store_paths[name] = bytes.fromhex(m.group(1)).decode()
+        return self.store_paths[name]
 
     def quiesce(self):
         self.eng.cmd("!flushwait")
@@ -191,35 +226,40 @@ class Hist:
 
     # -- observations
     def refresh_events(self):
-        r = self.eng.rows("QUERY ev")
-        if r["status"] != 200:
-            if self.k:
-                self.notes.append(f"QUERY ev failed: {r}")
-            return
         seen = {}
-        for x in r["rows"]:
-            k = int(x["k"])
-            seen[k] = {"ts": int(x["timestamp"]), "pt": int(x["pt"]), "id": int(x["event_id"]),
-                       "ctx": int(str(x["context_id"])[1:]), "v": int(x["v"])}
+        for ty, tname in enumerate(TYPES[:self.ntypes]):
+            r = self.eng.rows("QUERY " + tname)
+            if r["status"] != 200:
+                if self.k:
+                    self.notes.append(f"QUERY {tname} failed: {r}")
+                return
+            for x in r["rows"]:
+                k = int(x["k"])
+                seen[k] = {"ts": int(x["timestamp"]), "pt": int(x["pt"]), "id": int(x["event_id"]),
+                           "ctx": int(str(x["context_id"])[1:]), "v": int(x["v"]), "ty": ty}
         for k, e in seen.items():
             self.events[k] = e
         missing = [k for k in self.events if k not in seen]
         if missing:
-            self.notes.append(f"events {missing} are no longer returned by QUERY ev")
+            self.notes.append(f"events {missing} are no longer returned by QUERY <type>")
             for k in missing:
                 del self.events[k]
 
     def ev_tok(self, k):
         e = self.events[k]
-        return f"{k}.{e['ts']}.{e['pt']}.{e['id']}.{e['ctx']}.{e['v']}"
+        return f"{k}.{e['ts']}.{e['pt']}.{e['id']}.{e['ctx']}.{e['v']}.{e['ty']}"
 
     def layout(self, window_shard=None, window_keys=()):
         """[(mem keys, [(mtime, [zone keys...])...]) per shard] from the directories and the event list."""
         self.refresh_events()
-        out = fn_probe(f"mat_layout {hx(os.path.join(self.eng.root, 'cols'))} {self.uid}")
         shards = [{"mem": [], "segs": []} for _ in range(self.cfg["shards"])]
         ondisk = set()
-        if out not in ("NOSEGS", ""):
+        # the zones of every event type: a segment directory holds one .zones file per type, each with its own mtime —
+        # one model segment per (directory, type)
+        for uid in self.uids:
+            out = fn_probe(f"mat_layout {hx(os.path.join(self.eng.root, 'cols'))} {uid}")
+            if out in ("NOSEGS", ""):
+                continue
             for tok in out.split(" "):
                 m = re.match(r"s(\d+)g(\d+)@(\d+):(.*)$", tok)
                 if not m:
@@ -238,9 +278,10 @@ class Hist:
         # the memtable (inside a flush window, or replayed from a WAL file that outlived its segment at a restart)
         twice = set()
         if ondisk:
-            rc = self.eng.rows("QUERY ev COUNT BY k")
-            if rc["status"] == 200:
-                twice = set(int(x["k"]) for x in rc["rows"] if int(x.get("count", 1)) > 1)
+            for tname in TYPES[:self.ntypes]:
+                rc = self.eng.rows(f"QUERY {tname} COUNT BY k")
+                if rc["status"] == 200:
+                    twice |= set(int(x["k"]) for x in rc["rows"] if int(x.get("count", 1)) > 1)
         self.twice = twice
         for k, e in sorted(self.events.items()):
             if k not in ondisk or k in window_keys or k in twice:
@@ -276,7 +317,7 @@ class Hist:
         return shards
 
     def frames(self, name):
-        out = fn_probe(f"mat_frames {hx(os.path.join(self.eng.root, 'cols', 'materializations', 'm%d' % name))}")
+        out = fn_probe(f"mat_frames {hx(self.store_dir(name))}")
         fr = []
         self.sink_mark[name] = "0.0"
         if out in ("NOSTORE", "EMPTY", ""):
@@ -292,7 +333,7 @@ class Hist:
         return fr
 
     def catalog_mark(self, name):
-        out = fn_probe(f"mat_catalog {hx(os.path.join(self.eng.root, 'cols'))} m{name}")
+        out = fn_probe(f"mat_catalog {hx(os.path.join(self.eng.root, 'cols'))} {self.alias(name)}")
         m = re.match(r"cat=(\d+\.\d+) rows=(\d+)", out)
         if not m:
             self.notes.append(f"catalog probe for m{name}: {out[:100]}")
@@ -346,9 +387,26 @@ class Hist:
         return ";".join("+".join(str(k) for k in sorted(ks)) or "-" for _, ks in new_frames) or "-"
 
     # -- ops
-    def do_store(self, ctx, v, ptoff, wait=True):
+    def others_snapshot(self, name):
+        """stores and catalog entries of every OTHER view (oracle: an operation on one view must not touch them)"""
+        if not self.frame_check:
+            return None
+        snap = {}
+        for b in self.queries:
+            if b != name and b not in self.pending_fail:
+                fr = self.frames(b)
+                snap[b] = (fr, self.sink_mark.get(b), self.catalog_mark(b))
+        return snap
+
+    def others_changed(self, name, before):
+        if before is None:
+            return []
+        after = self.others_snapshot(name)
+        return [self.alias(b) for b in before if b in after and after[b] != before[b]]
+
+    def do_store(self, ctx, v, ptoff, wait=True, ty=0):
         self.k += 1
-        r = self.eng.cmd(f'STORE ev FOR c{ctx:02d} PAYLOAD {{"k": {self.k}, "v": {v}, "pt": {self.now + ptoff}}}')
+        r = self.eng.cmd(f'STORE {TYPES[ty]} FOR c{ctx:02d} PAYLOAD {{"k": {self.k}, "v": {v}, "pt": {self.now + ptoff}}}')
         if '"status":200' not in r.get("out", ""):
             self.notes.append(f"STORE rejected: {str(r)[:200]}")
         if wait:
@@ -357,12 +415,14 @@ class Hist:
             self.stores_since[n] += 1
 
     def do_remember(self, name, q, shards):
-        line = f"REMEMBER {q_text(q, self.base)} AS m{name}"
+        line = f"REMEMBER {q_text(q, self.base)} AS {self.alias(name)}"
         self.amend_failed(name)
+        snap = self.others_snapshot(name)
         before = self.frames(name)
         r = self.eng.cmd(line)
         out = r.get("out", "")
         after = self.frames(name)
+        touched = self.others_changed(name, snap)
         new = after[len(before):]
         self.tokens.append(f"R:{name}:{q_token(q, self.base)}:{self.choice(shards, new)}")
         if '"status":200' in out:
@@ -371,20 +431,24 @@ class Hist:
             if after and self.sink_mark.get(name) != mark:
                 self.notes.append(f"REMEMBER reports mark {mark}, a sink re-opened on the store carries {self.sink_mark.get(name)}")
             self.obs.append(f"R ok frames={self.frames_str(new)} mark={mark}")
-            self.shows.append({"kind": "remember", "name": name, "fresh": name not in self.queries})
+            self.shows.append({"kind": "remember", "name": name, "fresh": name not in self.queries, "touched": touched,
+                               "alias": self.alias(name)})
             if name not in self.queries:
                 self.queries[name] = q
                 self.stores_since[name] = 0
         elif "already exists" in out:
             self.obs.append("R rejected")
-            self.shows.append({"kind": "remember-rejected", "name": name, "existed": name in self.queries,
-                               "frames_changed": before != after})
+            # a name that differs from an existing one only in letter case may be rejected (then it is simply no view)
+            case_twin = any(self.alias(b).lower() == self.alias(name).lower() for b in self.queries if b != name)
+            self.shows.append({"kind": "remember-rejected", "name": name, "existed": name in self.queries or case_twin,
+                               "frames_changed": before != after, "touched": touched, "alias": self.alias(name)})
         else:
             self.obs.append("R error " + out[:120])
-            self.shows.append({"kind": "remember-error", "name": name, "msg": out[:200]})
+            self.shows.append({"kind": "remember-error", "name": name, "msg": out[:200], "alias": self.alias(name), "touched": touched})
 
     def do_show(self, name, shards, fail=None, abort=None):
         self.amend_failed(name)
+        snap = self.others_snapshot(name)
         before = self.frames(name)
         if fail is not None:
             self.eng.cmd(f"!failwrite {fail}")
@@ -392,7 +456,7 @@ class Hist:
             self.eng.cmd(f"!arm_abort {abort[0]} {abort[1]}")
         crashed = False
         try:
-            raw = self.eng.cmd(f"SHOW m{name}")
+            raw = self.eng.cmd(f"SHOW {self.alias(name)}")
         except engine.Crashed:
             # the process died inside SHOW (armed step point): restart on the same directories
             crashed = True
@@ -417,7 +481,8 @@ class Hist:
             self.obs.append(f"F new={self.frames_str(new)} mark={mark} cat={self.catalog_mark(name)}")
             self.pending_fail[name] = (len(self.tokens) - 1, len(self.obs) - 1, before, shards, after)
             self.shows.append({"kind": "show-failed", "name": name, "appended": len(new), "bytes": fail, "crashed": crashed,
-                               "delivered": len(raw.get("out", ""))})
+                               "delivered": len(raw.get("out", "")), "alias": self.alias(name),
+                               "touched": [] if crashed else self.others_changed(name, snap)})
             return
         after = self.frames(name)
         new = after[len(before):]
@@ -433,7 +498,8 @@ class Hist:
         mark = self.sink_mark.get(name, "0.0")
         self.obs.append(f"S out={'+'.join(map(str, ks)) or '-'} new={self.frames_str(new)} mark={mark} cat={self.catalog_mark(name)}")
         q = self.queries.get(name)
-        d = {"kind": "show", "name": name, "show": ks, "q": q, "after_fault": self.faulted.get(name, False)}
+        d = {"kind": "show", "name": name, "show": ks, "q": q, "after_fault": self.faulted.get(name, False),
+             "alias": self.alias(name), "touched": self.others_changed(name, snap)}
         self.faulted[name] = False
         if q is not None:
             rq = self.eng.rows(q_text(q, self.base))
@@ -460,7 +526,7 @@ class Hist:
                     self.ms = max(rs + [self.ms])
                     self.eng.cmd(f"!clock_ms {op[1]} " + " ".join(map(str, rs)))
                 elif t == "S":
-                    self.do_store(op[1], op[2], op[3])
+                    self.do_store(op[1], op[2], op[3], ty=(op[4] if len(op) > 4 else 0))
                 elif t == "F":
                     self.eng.cmd("FLUSH"); self.quiesce()
                 elif t == "C":
@@ -657,14 +723,17 @@ def oracle(c, impl):
     for n, d in enumerate(impl["shows"]):
         if not d:
             continue
+        if d.get("touched"):
+            return (f"op#{n}: the operation on view {d.get('alias')} changed the store or the catalog entry of the other view(s) "
+                    f"{d['touched']}")
         if d["kind"] == "remember-rejected" and (not d["existed"] or d["frames_changed"]):
-            return f"op#{n}: REMEMBER m{d['name']} rejected although the name was free, or it changed the stored frames"
+            return f"op#{n}: REMEMBER {d.get('alias') or 'm%s' % d['name']} rejected although the name was free, or it changed the stored frames"
         if d["kind"] == "remember" and not d["fresh"]:
-            return f"op#{n}: REMEMBER under the existing name m{d['name']} was accepted"
+            return f"op#{n}: REMEMBER under the existing name {d.get('alias') or 'm%s' % d['name']} was accepted"
         if d["kind"] == "remember-error":
-            return f"op#{n}: REMEMBER m{d['name']} failed: {d['msg']}"
+            return f"op#{n}: REMEMBER {d.get('alias') or 'm%s' % d['name']} failed: {d['msg']}"
         if d["kind"] == "show-unknown" and d["known"]:
-            return f"op#{n}: SHOW m{d['name']} failed: {d['msg']}"
+            return f"op#{n}: SHOW {d.get('alias') or 'm%s' % d['name']} failed: {d['msg']}"
         if d["kind"] != "show" or d.get("q") is None:
             continue
         sh, qu = d["show"], d["query"]
@@ -676,17 +745,17 @@ def oracle(c, impl):
                 miss = sorted(set(k for k in qu if qu.count(k) > sh.count(k)))
                 def brief(l):
                     return l if len(l) <= 40 else f"{len(l)} rows [{l[0]}..{l[-1]}]"
-                return (f"op#{n}: SHOW m{d['name']} returned {brief(sh)}, QUERY issued right after returned {brief(qu)}"
+                return (f"op#{n}: SHOW {d.get('alias') or 'm%s' % d['name']} returned {brief(sh)}, QUERY issued right after returned {brief(qu)}"
                         + (f"; returned more than once or not selected: {extra}" if extra else "")
                         + (f"; missing: {miss}" if miss else "")
                         + ("; first healthy SHOW after a SHOW whose delivery failed" if d.get("after_fault") else ""))
         else:
             alln = d.get("query_nolimit", [])
             if len(sh) != len(qu) or len(set(sh)) != len(sh) or not set(sh) <= set(alln):
-                return (f"op#{n}: SHOW m{d['name']} returned {sh} ({len(sh)} rows), QUERY … LIMIT {d['q']['limit']} returned "
+                return (f"op#{n}: SHOW {d.get('alias') or 'm%s' % d['name']} returned {sh} ({len(sh)} rows), QUERY … LIMIT {d['q']['limit']} returned "
                         f"{len(qu)} rows {qu} of the selection {alln}")
         if "repeat_of" in d and d["repeat_of"] != sh:
-            return f"op#{n}: repeated SHOW m{d['name']} with no new data returned {sh}, the previous one {d['repeat_of']}"
+            return f"op#{n}: repeated SHOW {d.get('alias') or 'm%s' % d['name']} with no new data returned {sh}, the previous one {d['repeat_of']}"
     return None
 
 
@@ -740,7 +809,8 @@ CFGS = [
 def mk_case(kind, cfg, ops, **kw):
     c = {"kind": kind, "cfg": cfg, "ops": [list(o) for o in ops]}
     c.update(kw)
-    c["show"] = f"shards={cfg['shards']} cap={cfg['fill_factor']}x{cfg['event_per_zone']}" + (" future-clock" if kw.get("future") else "") + ": " + show_ops(c["ops"])
+    c["show"] = (f"shards={cfg['shards']} cap={cfg['fill_factor']}x{cfg['event_per_zone']}" + (" future-clock" if kw.get("future") else "")
+                 + ": " + show_ops(c["ops"], kw.get("aliases")))
     return c
 
 
@@ -847,6 +917,93 @@ def gen_fault_history(rng, cfg, tf="C"):
     return ops
 
 
+ALIAS_FAMILIES = {
+    # names that differ only in letter case
+    "case": [["orders_eu", "Orders_EU", "ORDERS_EU", "orders_Eu"], ["v", "V"], ["Daily-Report", "daily-report", "DAILY-REPORT"]],
+    # names that are prefixes of each other
+    "prefix": [["m", "m1", "m10", "m1_"], ["frames", "frames_", "frame"], ["a", "aa", "aaa"]],
+    # the two separators the grammar admits, and names the store layout itself uses
+    "sep": [["a_b", "a-b", "ab", "a__b"], ["manifest", "frames", "catalog", "entry"], ["x-", "x_", "x"]],
+    # long names (a file-name component may be at most 255 bytes)
+    "long": [["L" * 200, "L" * 199 + "x", "l" * 200], ["q" * 120 + "_A", "q" * 120 + "_a"]],
+    # digits only / leading zeros
+    "digits": [["n1", "n01", "n001", "N1"], ["v2026", "V2026", "v2026_"]],
+}
+
+
+def gen_views_history(rng, cfg, family=None):
+    """several remembered queries side by side: different WHERE constants over the same type and column layout, the same
+    query under two names, queries over another type; STORE / FLUSH / compaction / restart / SHOW a / SHOW b / failed SHOW
+    interleaved; exact-duplicate REMEMBERs (must be rejected)"""
+    family = family or rng.choice(sorted(ALIAS_FAMILIES))
+    names = list(rng.choice(ALIAS_FAMILIES[family]))
+    nv = min(len(names), rng.range(2, 4))
+    # keep the spelling order but start anywhere, so that both "lower first" and "upper first" occur
+    off = rng.below(len(names))
+    names = [names[(off + i) % len(names)] for i in range(nv)]
+    aliases = {str(i + 1): a for i, a in enumerate(names)}
+    ntypes = 2 if rng.chance(1, 2) else 1
+    qs = []
+    same = rng.chance(1, 3)          # all views remember the same query
+    ret = rng.choice([None, None, ["k"], ["k", "v"]])
+    wheres = [None, [">=", 1], ["<", 2], ["=", 0], [">=", 2], ["<", 3]]
+    w0 = rng.choice(wheres)
+    for i in range(nv):
+        q = {"ctx": None, "where": w0 if same else rng.choice(wheres), "since": None, "tf": "C", "ret": ret, "limit": None}
+        if not same and rng.chance(1, 6):
+            q["ctx"] = rng.below(3)
+        if not same and ntypes == 2 and rng.chance(1, 3):
+            q["type"] = 1
+        qs.append(q)
+    ops, now, remembered = [], 0, []
+
+    def stores(n):
+        nonlocal now
+        for _ in range(n):
+            if rng.chance(1, 3):
+                now += rng.range(1, 2)
+                ops.append(("N", now))
+            ops.append(("S", rng.below(3), rng.below(4), 0, rng.below(ntypes)))
+
+    def remember_next():
+        v = len(remembered) + 1
+        remembered.append(v)
+        ops.append(("R", v, qs[v - 1]))
+    # events before the first view, between the views, and afterwards
+    stores(rng.range(2, 5))
+    if rng.chance(1, 3):
+        ops.append(("F",))
+    remember_next()
+    if rng.chance(1, 2):
+        ops.append(("H", 1))
+    stores(rng.range(0, 3))
+    remember_next()
+    for step in range(rng.range(5, 9)):
+        r = rng.below(100)
+        if r < 25:
+            stores(rng.range(1, 3))
+        elif r < 33:
+            ops.append(("F",))
+        elif r < 37:
+            ops.append(("C",))
+        elif r < 42:
+            ops.append(("X",))
+        elif r < 54 and len(remembered) < nv:
+            remember_next()
+        elif r < 60:
+            ops.append(("R", rng.choice(remembered), rng.choice(qs)))          # exact spelling again: rejected, nothing changes
+        elif r < 67:
+            ops.append(("HF", rng.choice(remembered), rng.choice([0, 50])))
+        else:
+            ops.append(("H", rng.choice(remembered)))
+    stores(rng.range(0, 2))
+    for v in remembered:
+        ops.append(("H", v))
+    for v in remembered:
+        ops.append(("H", v))
+    return ops, aliases, ntypes
+
+
 def cases(rng, tier):
     out = []
     quick = tier == "quick"
@@ -914,6 +1071,11 @@ def cases(rng, tier):
                 ops.append(("F",))
             ops.append(("H", 1))
         out.append(mk_case("frozen_clock", cfg, ops))
+    fams = sorted(ALIAS_FAMILIES)
+    for i in range(16 if quick else 400):
+        cfg = rng.choice(CFGS)
+        ops, aliases, ntypes = gen_views_history(rng, cfg, family=fams[i % len(fams)] if i < 2 * len(fams) else None)
+        out.append(mk_case("views", cfg, ops, aliases=aliases, types=ntypes, frame_check=True))
     for i in range(14 if quick else 400):
         cfg = rng.choice(CFGS)
         out.append(mk_case("show_fault", cfg, gen_fault_history(rng, cfg)))
